@@ -404,7 +404,8 @@ func (cr *streamReader) decodeLoop(rc io.ReadCloser, t streamType) error {
 			return err
 		}
 
-		receivedBytes.WithLabelValues(m.FromGroup.Name).Add(float64(m.Size()))
+		// the name comes off the wire; a metric label must be valid UTF-8 or prometheus panics
+		receivedBytes.WithLabelValues(strings.ToValidUTF8(m.FromGroup.Name, "?")).Add(float64(m.Size()))
 
 		cr.mu.Lock()
 		paused := cr.paused
@@ -431,7 +432,7 @@ func (cr *streamReader) decodeLoop(rc io.ReadCloser, t streamType) error {
 			} else {
 				plog.Debugf("dropped %s from %s since err %v", m.Type, types.ID(m.From), err.Error())
 			}
-			recvFailures.WithLabelValues(m.FromGroup.Name).Inc()
+			recvFailures.WithLabelValues(strings.ToValidUTF8(m.FromGroup.Name, "?")).Inc()
 		}
 	}
 }
